@@ -177,6 +177,7 @@ func (x *Exec) doCallVals(p *Path, site ssa.Instruction, cc *ssa.CallCommon, fnv
 		}
 		if ic := x.ifaceContract(cc); ic != nil {
 			all := append([]Val{fnv}, args...)
+			x.evArgsSkip = 1
 			x.applyContract(p, site, ic, nil, key, all, rtypes, rtuple, k, pk)
 			return
 		}
@@ -214,11 +215,11 @@ func (x *Exec) external(p *Path, key string, args []Val, freshResults func(strin
 	if x.npaths < x.maxPaths {
 		x.npaths++
 		q := p.clone(x.npaths)
-		x.e.havocAll(q)
+		x.havocEverything(q)
 		q.events = append(q.events, Event{Key: key, Args: args, Panics: true})
 		pk(q)
 	}
-	x.e.havocAll(p)
+	x.havocEverything(p)
 	res := freshResults("ext")
 	p.events = append(p.events, Event{Key: key, Args: args, Res: res})
 	k(p, resultVal(rtuple, res))
@@ -315,6 +316,8 @@ func (x *Exec) contractVars(fc *FuncContract, callee *ssa.Function, args []Val) 
 
 func (x *Exec) applyContract(p *Path, site ssa.Instruction, fc *FuncContract, callee *ssa.Function, key string, args []Val, rtypes []types.Type, rtuple *types.Tuple, k callK, pk panK) {
 	e := x.e
+	evArgs := args[x.evArgsSkip:]
+	x.evArgsSkip = 0
 	vars := x.contractVars(fc, callee, args)
 	cname := fc.Name
 	pre := x.evalCtx(p, vars)
@@ -364,7 +367,7 @@ func (x *Exec) applyContract(p *Path, site ssa.Instruction, fc *FuncContract, ca
 		}
 	}
 	if everything {
-		e.havocAll(p)
+		x.havocEverything(p)
 	} else {
 		for _, m := range fc.Modifies {
 			x.havocTarget(p, hctx, m, false, fc)
@@ -386,9 +389,16 @@ func (x *Exec) applyContract(p *Path, site ssa.Instruction, fc *FuncContract, ca
 		post.old = old
 		post.frame = nil
 		for _, c := range clauses {
+			if mentionsEvents(c.E) {
+				continue // clauses about the callee's own call log are not visible to callers
+			}
 			s, err := post.EvalBool(c.E)
 			if err != nil {
 				x.errorf("%s:%d: ensures at call: %v", c.File, c.Line, err)
+				continue
+			}
+			if s == "false" {
+				x.errorf("%s:%d: postcondition of %s is false at this call site", c.File, c.Line, fc.Name)
 				continue
 			}
 			p.assume(s)
@@ -398,7 +408,7 @@ func (x *Exec) applyContract(p *Path, site ssa.Instruction, fc *FuncContract, ca
 		x.npaths++
 		q := p.clone(x.npaths)
 		doPost(q, fc.EnsPanic, nil)
-		q.events = append(q.events, Event{Key: key, Args: args, Panics: true})
+		q.events = append(q.events, Event{Key: key, Args: evArgs, Panics: true})
 		pk(q)
 	}
 	doPost(p, fc.GhostEns, res)
@@ -412,7 +422,10 @@ func (x *Exec) applyContract(p *Path, site ssa.Instruction, fc *FuncContract, ca
 	if fc.Kind == "extern" {
 		key = fc.Name
 	}
-	p.events = append(p.events, Event{Key: key, Args: args, Res: res})
+	if len(res) == 1 && res[0].Label == "" {
+		res[0].Label = key
+	}
+	p.events = append(p.events, Event{Key: key, Args: evArgs, Res: res})
 	k(p, resultVal(rtuple, res))
 }
 
@@ -1324,4 +1337,78 @@ func (x *Exec) isFreshObj(p *Path, obj string) bool {
 	// objects allocated in this activation have names starting with the alloc hint and are >= entry brk;
 	// we track them through nonnil+prefix: allocation results are declared via alloc().
 	return strings.HasPrefix(obj, "|t") && p.nonnil[obj] && strings.Contains(obj, "#") && x.e.allocated[obj]
+}
+
+// havocEverything: arbitrary code ran. Everything is forgotten except immutable/stable state and the state
+// guarded by locks this thread holds (lock discipline: nobody else can write it; no re-entrancy assumption).
+func (x *Exec) havocEverything(p *Path) {
+	e := x.e
+	whole := map[string]string{}
+	type part struct{ key, obj, old, sort string }
+	var parts []part
+	for lk := range p.locks {
+		ps := strings.Split(lk, "\x00")
+		if len(ps) != 3 {
+			continue
+		}
+		obj := ps[0]
+		i := strings.LastIndex(ps[1], ".")
+		if i < 0 {
+			continue
+		}
+		tkey, field := ps[1][:i], ps[1][i+1:]
+		for _, key := range x.guardedKeys(tkey, field) {
+			srt, ok := e.keySort[key]
+			if !ok {
+				continue
+			}
+			old := e.heapName(p, nil, key, srt)
+			if strings.HasPrefix(key, "F:"+tkey+".") && obj != "?" {
+				parts = append(parts, part{key, obj, old, srt})
+			} else {
+				whole[key] = old
+			}
+		}
+	}
+	e.havocAll(p)
+	for k, old := range whole {
+		p.heap[k] = old
+	}
+	for _, pt := range parts {
+		if _, isWhole := whole[pt.key]; isWhole {
+			continue
+		}
+		nw := e.heapName(p, nil, pt.key, pt.sort)
+		p.assume(eq(sel(nw, pt.obj), sel(pt.old, pt.obj)))
+	}
+	if len(whole)+len(parts) > 0 {
+		e.note("state guarded by a held lock survives calls to arbitrary code (no re-entrancy, lock discipline)")
+	}
+}
+
+// mentionsEvents: does the expression talk about the call log (calls, callarg, callres, before)?
+func mentionsEvents(e Expr) bool {
+	switch e := e.(type) {
+	case *ECall:
+		switch e.Fn {
+		case "calls", "callarg", "callres", "before":
+			return true
+		}
+		for _, a := range e.Args {
+			if mentionsEvents(a) {
+				return true
+			}
+		}
+	case *EUnary:
+		return mentionsEvents(e.X)
+	case *EBinary:
+		return mentionsEvents(e.L) || mentionsEvents(e.R)
+	case *ESel:
+		return mentionsEvents(e.X)
+	case *EIndex:
+		return mentionsEvents(e.X) || mentionsEvents(e.I)
+	case *EQuant:
+		return mentionsEvents(e.Body)
+	}
+	return false
 }
